@@ -54,6 +54,7 @@ check_C15() {
   inpkg_test inpkg TestVerifC15
   build_proxy
   wire_part wire pintime
+  wire_part fault pinfault
 }
 
 check_C19() {
